@@ -43,6 +43,7 @@ type HarnessResult struct {
 	MaxPaths    int
 	Truncated   bool
 	Leads       map[string]int
+	Narrowed    int
 }
 
 type ExploreOpts struct {
@@ -109,6 +110,7 @@ func explore(p *Program, pkg *ssa.Package, fnName string, params map[string]int,
 				hr.Outcomes[res.Outcome]++
 				hr.Steps += res.Steps
 				hr.Unknowns += res.Unknowns
+				hr.Narrowed += res.Narrowed
 				for k, v := range res.AssertReach {
 					hr.AssertReach[k] += v
 				}
